@@ -54,6 +54,8 @@ int main(int argc, char** argv) {
   else if (h == "bi_setFlag") { b->setFlag((BlockValidityStatus)flag); bad = b->getStatus() != (status | flag); }
   else if (h == "bi_unsetFlag") { b->unsetFlag((BlockValidityStatus)flag); bad = b->getStatus() != (status & ~flag); }
   else if (h == "bi_setStatus") { b->setStatus((uint32_t)in.S("v")); bad = b->getStatus() != (uint32_t)in.S("v"); }
+  else if (h == "bi_deleteTemporarily") { b->deleteTemporarily(); bad = b->getStatus() != ((status & 0xE0u) | 0x400u); }
+  else if (h == "bi_restore") { b->restore(); bad = b->getStatus() != (status & ~0x400u); }
   else { printf("NOT-REPRODUCED: no native evaluator for harness %s\n", h.c_str()); _exit(0); }
   printf("%s: status %u -> %u, dirty %d -> %d\n", h.c_str(), status, b->getStatus(), (int)dirty, (int)b->isDirty());
   bool dirty_rule_broken = (b->getStatus() != status && !b->isDirty()) || (dirty && !b->isDirty());
